@@ -46,6 +46,10 @@ class ToyField:
         for y in range(q):
             roots.setdefault(y * y % q, []).append(y)
         self.sqrt_tbl = [min(roots[a]) if a in roots else None for a in range(q)]
+        # toy Montgomery factor: the limb image of an element v is (v * rho mod q, 0, 0, 0) with rho = 2^256 mod q, as in the real
+        # representation, so code that handles limbs without respecting the Montgomery form is wrong here too
+        self.rho = next(r for r in (pow(2, 256, q), pow(2, 64, q), 3) if r % q not in (0, 1))
+        self.rinv = pow(self.rho, -1, q)
 
     def const(self, c):
         return c % self.q
@@ -90,8 +94,12 @@ class ToyField:
         return tm.eq(a, b, W)
 
 
+CURRENT = {'alg': None}    # the toy field of the machine installed last in this process (harnesses install one machine family at a time)
+
+
 def leaf_value(node):
-    """value of a toy-field element leaf of an object tree: abstract (Abs) or left as explicit limbs by code below the method level"""
+    """value of a toy-field element leaf of an object tree: abstract (Abs) or left as explicit limbs by code below the method level
+    (explicit limbs hold the toy Montgomery form value * rho, see install)"""
     if isinstance(node, X.Abs):
         return node.v
     limbs = list(node[1])
@@ -99,7 +107,9 @@ def leaf_value(node):
     if any(isinstance(x, tm.T) or x != 0 for x in limbs[1:]) or (isinstance(l0, tm.T) and l0.ub >= (1 << W)) or \
             (not isinstance(l0, tm.T) and l0 >= (1 << W)):
         raise X.AbstractionBreach("toy field element with limbs outside 16 bits: %r" % (limbs,))
-    return tm.extract(l0, W - 1, 0) if isinstance(l0, tm.T) else l0
+    raw = tm.extract(l0, W - 1, 0) if isinstance(l0, tm.T) else l0
+    alg = CURRENT['alg']
+    return alg.mul(raw, alg.rinv) if alg is not None else raw
 
 
 def install(m, alg, consts=None):
@@ -128,9 +138,14 @@ def install(m, alg, consts=None):
             val = tm.extract(l0, W - 1, 0) if isinstance(l0, tm.T) else l0 & ((1 << W) - 1)
             if isinstance(val, tm.T) and val.ub >= alg.q:
                 m.ctx.check(tm.ult(val, alg.q, W), 'bv:field-element-limbs-stay-canonical')
-            return val
-        # concrete element from the globals dump: [[], [4 limbs]] holding the plain value (R = 1 model)
+            return alg.mul(val, alg.rinv)      # explicit limbs hold the toy Montgomery form
         val = sum(int(x) << (64 * i) for i, x in enumerate(limbs))
+        if toy:
+            # concrete explicit limbs (package constants are abstract leaves here, see global_struct_hook below): Montgomery form as well
+            if val >= alg.q:
+                m.ctx.check(False, 'bv:field-element-limbs-stay-canonical')
+            return (val % alg.q) * alg.rinv % alg.q
+        # polynomial domain: concrete element from the globals dump, [[], [4 limbs]] holding the plain value (R = 1 model)
         return alg.const(val)
 
     def put(ptr, v):
@@ -174,9 +189,19 @@ def install(m, alg, consts=None):
             return mk(tm.ite(c, a.v, b.v, W))
         m.abs_merge = merge
         # code that reaches below the method level (e.g. a new Element method written over the fiat kernels) runs on the limb image
-        # [v,0,0,0] of the abstract value (R = 1 model), with the fiat kernels interpreted mod q
+        # [v*rho mod q,0,0,0] of the abstract value (toy Montgomery form), with the fiat kernels interpreted mod q
         m.abs_materialize = dict(m.abs_materialize or {})
-        m.abs_materialize['fe'] = lambda node: [[], [tm.zext(node.v, 64) if isinstance(node.v, tm.T) else node.v, 0, 0, 0]]
+        rho, rinv = alg.rho, alg.rinv
+
+        def limb(v):
+            return tm.zext(v, 64) if isinstance(v, tm.T) else v
+        m.abs_materialize['fe'] = lambda node: [[], [limb(alg.mul(node.v, rho)), 0, 0, 0]]
+        # package-level field elements of the current tree (dumped with the plain value) become abstract leaves, so that every explicit
+        # limb vector in this machine is a Montgomery-form image
+        hooks = dict(getattr(m, 'global_struct_hook', None) or {})
+        hooks[ELEM_T] = lambda tree: mk(alg.const(sum(int(x) << (64 * i) for i, x in enumerate(tree[1]))))
+        m.global_struct_hook = hooks
+        CURRENT['alg'] = alg
         FIAT = MOD + '/internal/fiat/secp256k1montgomery.'
 
         def kld(ptr):
@@ -189,11 +214,11 @@ def install(m, alg, consts=None):
         C[FIAT + 'Add'] = lambda m, a: kst(a[0], alg.add(kld(a[1]), kld(a[2])))
         C[FIAT + 'Sub'] = lambda m, a: kst(a[0], alg.sub(kld(a[1]), kld(a[2])))
         C[FIAT + 'Opp'] = lambda m, a: kst(a[0], alg.neg(kld(a[1])))
-        C[FIAT + 'Mul'] = lambda m, a: kst(a[0], alg.mul(kld(a[1]), kld(a[2])))
-        C[FIAT + 'Square'] = lambda m, a: kst(a[0], (lambda v: alg.mul(v, v))(kld(a[1])))
-        C[FIAT + 'ToMontgomery'] = lambda m, a: kst(a[0], kld(a[1]))
-        C[FIAT + 'FromMontgomery'] = lambda m, a: kst(a[0], kld(a[1]))
-        C[FIAT + 'SetOne'] = lambda m, a: kst(a[0], 1)
+        C[FIAT + 'Mul'] = lambda m, a: kst(a[0], alg.mul(alg.mul(kld(a[1]), kld(a[2])), rinv))
+        C[FIAT + 'Square'] = lambda m, a: kst(a[0], (lambda v: alg.mul(alg.mul(v, v), rinv))(kld(a[1])))
+        C[FIAT + 'ToMontgomery'] = lambda m, a: kst(a[0], alg.mul(kld(a[1]), rho))
+        C[FIAT + 'FromMontgomery'] = lambda m, a: kst(a[0], alg.mul(kld(a[1]), rinv))
+        C[FIAT + 'SetOne'] = lambda m, a: kst(a[0], rho)
         C[FE + 'ConditionalSelect'] = lambda m, a: put(a[0], tm.ite(tm.eq(a[3], 0, 64), get(a[1]), get(a[2]), W))
         C[FE + 'ConditionalNegate'] = lambda m, a: put(a[0], (lambda v: tm.ite(tm.eq(a[2], 0, 64), v, alg.neg(v), W))(get(a[1])))
         C[FE + 'Equal'] = lambda m, a: tm.ite(tm.eq(get(a[0]), get(a[1]), W), 1, 0, 64)
